@@ -11,10 +11,10 @@ from ..simdev import SimDevice
 
 PROPERTY = "C06"
 LEVEL = "fault_enumeration"
-RULE = ("fault enumeration on the handshake reply: for each (token,key,nonce) triple and key form (bytes / hex string), on a "
+RULE = ("fault enumeration on the handshake reply: for each (token,key,nonce) triple (two of them chosen so that the genuine reply contains the bytes 83 70) and key form (bytes / hex string), on a "
         "fresh client, after a previous successful authentication with other credentials, and after an expired authentication with the same credentials: the genuine reply; every "
         "single-bit flip of the 64-byte body; every single-bit flip of marker, size, magic and type nibble; every body "
-        "length 0..80 != 64; every packet type nibble in place of the reply; replies computed under 4 other keys. "
+        "length 0..80 != 64; 1..15 surplus bytes announced in the header's padding nibble; every packet type nibble in place of the reply; replies computed under 4 other keys. "
         "One execution = Device.authenticate + a following refresh against the reference device; the device-side wire "
         "log is the observable. A case is (triple, form, scenario, fault); non-trivial = every case (genuine included)")
 ASSUMPTIONS = [
@@ -24,7 +24,26 @@ ASSUMPTIONS = [
 IP, PORT = "10.0.0.6", 6444
 
 
+def _marker_nonce(label: str, key: bytes, where) -> bytes:
+    """A device nonce whose GENUINE reply contains the V3 start-of-packet marker 83 70 at a position accepted by `where`."""
+    for i in range(400000):
+        nonce = filler(f"{label}/{i}", 32)
+        k = rc.handshake_reply_body(key, nonce).find(b"\x83\x70")
+        if k >= 0 and where(k):
+            return nonce
+    raise RuntimeError("no nonce found")
+
+
+_TRIPLES = []
+
+
 def triples():
+    if not _TRIPLES:
+        _TRIPLES.extend(_triples())
+    return _TRIPLES
+
+
+def _triples():
     f = filler
     return [
         (f("c06/t0", 64), f("c06/k0", 32), f("c06/n0", 32)),
@@ -41,6 +60,9 @@ def triples():
         (b"\x20" + f("c06/t10", 62) + b"\x0a", b"\x09" + f("c06/k10", 30) + b"\x0d", b"\x20" * 32),
         (b"\x0b" * 64, b"\x20" * 31 + b"\x0c", f("c06/n11", 32)),
         (b"0" + f("c06/t12", 62) + b"\x00", b"\x00" + f("c06/k12", 30) + b"\x20", b"\x0a" * 32),
+        # genuine replies that happen to contain the stream's start-of-packet marker (in the encrypted half / in the hash half)
+        (f("c06/t13", 64), f("c06/k13", 32), _marker_nonce("c06/n13", f("c06/k13", 32), lambda k: k < 31)),
+        (f("c06/t14", 64), f("c06/k14", 32), _marker_nonce("c06/n14", f("c06/k14", 32), lambda k: k >= 32)),
     ]
 
 
@@ -49,6 +71,7 @@ def faults():
     out += [("bodybit", b) for b in range(512)]
     out += [("hdrbit", b) for b in list(range(0, 40)) + [40, 41, 42, 43]]   # bytes 0..4 all bits, byte 5 low nibble
     out += [("length", n) for n in range(0, 81) if n != 64]
+    out += [("padded", n) for n in range(1, 16)]     # n extra bytes, announced in the header's padding nibble
     out += [("type", t) for t in range(16) if t != 1]
     out += [("otherkey", i) for i in range(4)]
     return out
@@ -88,6 +111,8 @@ def mutate(reply: bytes, fault, key: bytes, nonce: bytes) -> bytes:
     if kind == "length":
         body = (reply[8:] + filler("c06/extra", 32))[:fault[1]]
         return rc.v3_build_plain(rc.T_HANDSHAKE_RESP, 0, body)
+    if kind == "padded":
+        return rc.v3_build_plain(rc.T_HANDSHAKE_RESP, 0, reply[8:] + filler("c06/pad", fault[1]), pad=fault[1])
     if kind == "type":
         m = bytearray(reply)
         m[5] = (m[5] & 0xF0) | fault[1]
